@@ -216,6 +216,7 @@ type Block struct {
 	RowIDs   []int    // id of each row (-1 when the row's fields disagree)
 	Problems []string // decoding problems (non-rectangular, mixed row, ...)
 	Err      error
+	DoneSeq  int // position in the observation order at which the INSERT returned (0 = still in flight)
 }
 
 // Attempt is one call of Request on an insert service (through the recording proxy).
@@ -228,7 +229,8 @@ type Attempt struct {
 
 // ReqStatus is the answer one request thread got.
 type ReqStatus struct {
-	Answers int
+	AnswerSeq int // position in the observation order of the (first) answer
+	Answers   int
 	Err     error
 	IDs     []int
 }
@@ -272,6 +274,8 @@ func (c *fakeClient) Do(ctx context.Context, q ch.Query) error {
 		b.Err = fmt.Errorf("injected slow INSERT #%d: %w", b.Seq, context.DeadlineExceeded)
 	}
 	sched.Op(sched.OpYield)
+	w.seq++
+	b.DoneSeq = w.seq
 	return b.Err
 }
 
@@ -474,12 +478,26 @@ func (s *Scenario) Run() any {
 			}
 			chunks = append(chunks, pr)
 		}
+		// the parser is a thread of its own, as in production (a goroutine decoding the body and sending chunks on an
+		// unbuffered channel); the client may be slow: before a later chunk the environment may delay it until
+		// everything else is quiescent (short delay) or beyond the flush interval (long delay)
+		rr := r
 		parser := func(ctx context.Context, body io.Reader, cache numbercache.ICache[uint64]) chan *model.ParserResponse {
-			res := make(chan *model.ParserResponse, len(chunks))
-			for _, p := range chunks {
-				res <- p
-			}
-			close(res)
+			res := sched.MakeChan[*model.ParserResponse](0)
+			sched.GoNamed(fmt.Sprintf("parser%d", rr), false, func() {
+				for i, p := range chunks {
+					if i > 0 {
+						switch sched.Choose("chunk-delayed", 3, true) {
+						case 1:
+							sched.Sleep(time.Millisecond)
+						case 2:
+							sched.Sleep(10 * time.Second)
+						}
+					}
+					sched.Send(res, p)
+				}
+				sched.Close(res)
+			})
 			return res
 		}
 		ctx := context.WithValue(context.Background(), "node", "n1")
@@ -490,6 +508,10 @@ func (s *Scenario) Run() any {
 		req, _ := http.NewRequestWithContext(ctx, "POST", "/push", nil)
 		sched.GoNamed(fmt.Sprintf("req%d", r), false, func() {
 			err := controllerv1.VerifDoParse(req, parser)
+			w.seq++
+			if st.Answers == 0 {
+				st.AnswerSeq = w.seq
+			}
 			st.Answers++
 			st.Err = err
 		})
@@ -612,14 +634,24 @@ func (s *Scenario) Check(obs any, res *sched.Result) (string, []sched.Finding) {
 		case st.Err == nil:
 			outcome = append(outcome, "ok")
 			for _, id := range st.IDs {
-				good := false
+				good, early := false, false
 				for _, b := range okBlocks[id] {
-					if b.Err == nil {
+					if b.Err == nil && b.DoneSeq != 0 {
 						good = true
+						if b.DoneSeq > st.AnswerSeq {
+							early = true
+						} else {
+							early = false
+							break
+						}
 					}
 				}
 				if !good {
 					add("C01", "ack_without_successful_insert", fmt.Sprintf("request %d was acknowledged but row %d was in no successful INSERT (blocks with it: %d)", i, id, len(okBlocks[id])))
+					break
+				}
+				if early {
+					add("C01", "ack_before_insert_completed", fmt.Sprintf("request %d was acknowledged before the INSERT carrying row %d had completed", i, id))
 					break
 				}
 			}
